@@ -245,6 +245,11 @@ class Check:
         """build property theorems + drivers; audit. Returns True iff all obligations discharged."""
         names_before = theorem_names(prop_module)
         self.cov["obligations"] = len(names_before)
+        # (T) translator: regenerate Nq/Gen/*.lean from the current sources
+        sys.path.insert(0, os.path.join(VERIF, "tools"))
+        import extract
+        xok, xmsgs = extract.run(REPO)
+        self.cov["translator"] = "ok" if xok else xmsgs
         self.cov["checker_cmd"] = "cd lean && lake build %s && lake env lean <#print axioms of each theorem>" % prop_module
         okd, outd = lake_build(list(drivers)) if drivers else (True, "")
         self.driver_ok = okd
@@ -253,6 +258,10 @@ class Check:
         ok, out = lake_build([prop_module] + list(extra_modules))
         self.proof_log = out
         broken = []
+        if not xok:
+            self.cov["discharged"] = 0
+            self.broken = ["translator failed (source reshaped): " + m for m in xmsgs]
+            return False
         if not ok:
             # which theorem failed? parse "error: file:line" against theorem line ranges
             broken = self._broken_theorems(prop_module, out)
@@ -422,3 +431,88 @@ def standard_verdict(chk, proofs_ok, stats, disagree, oracle, errors, correspond
                      "correspondence_no_longer_checks": correspondence_name})
     chk.violation("proof obligation or correspondence broken; the oracle found no failing input",
                   {"broken": what, "how_to_replay": replay_hint}, found_input=False)
+
+
+def byte_mutations(dis, seed, alphabet, per=400, prefix_variants=("0", "1", "2", "3")):
+    """mutations of the `in=` field of disagreement lines, as '<chunk> <hex>' stdin cases"""
+    import random
+    rnd = random.Random(seed)
+    cases = set()
+    for d in dis[:50]:
+        hx = kv(d).get("in", "-")
+        try:
+            b = bytearray.fromhex("" if hx == "-" else hx)
+        except ValueError:
+            continue
+        cases.update("%s %s" % (ck, bytes(b).hex() or "-") for ck in prefix_variants)
+        for _ in range(per):
+            m = bytearray(b)
+            for _ in range(rnd.randint(1, 3)):
+                op = rnd.randint(0, 2)
+                pos = rnd.randint(0, len(m))
+                ch = rnd.choice(alphabet)
+                if op == 0:
+                    m.insert(pos, ch)
+                elif op == 1 and m:
+                    del m[min(pos, len(m) - 1)]
+                elif m:
+                    m[min(pos, len(m) - 1)] = ch
+            for ck in prefix_variants:
+                cases.add("%s %s" % (ck, bytes(m).hex() or "-"))
+    return sorted(cases)
+
+
+def run_standard(prop, prop_module, driver, harness_src, link_like, objs_exclude, args_quick, args_thorough,
+                 rule, correspondence_name, alphabet=b"\r\n.a", assumptions=(), extra_cc="", stdin_prefixes=("0", "1", "2", "3"),
+                 harness_name=None, post=None):
+    """The common shape of a check: proofs + sharded harness|driver + verdict + evidence."""
+    c = Check(prop)
+    ok = c.proofs(prop_module, drivers=[driver])
+    s = c.build_repo()
+    stats, samples, disagree, oracle, errors = {}, [], [], [], []
+    neighbourhood = None
+    if s.ok and c.driver_ok:
+        try:
+            h = s.cc(os.path.join(VERIF, harness_src), os.path.join(s.dir, harness_name or ("h_" + prop.lower())),
+                     link_like=link_like, objs_exclude=objs_exclude, extra=extra_cc)
+            drv = driver_path(driver)
+            args = args_quick if c.tier == "quick" else args_thorough
+            cmds = []
+            corpus = os.path.join(VERIF, "corpus", prop + ".txt")
+            if c.replay:
+                cmds.append("%s - < %s" % (h, c.replay))
+            else:
+                if os.path.exists(corpus):
+                    cmds.append("%s - < %s" % (h, corpus))
+                cmds += ["%s %s %d %d %d" % (h, args, c.seed, i, NCPU) for i in range(NCPU)]
+            outs = run_pipeline(cmds, drv)
+            stats, samples, disagree, oracle, errors = parse_driver_output(outs)
+
+            def neighbourhood(dis):
+                cases = byte_mutations(dis, c.seed, alphabet, prefix_variants=stdin_prefixes)
+                if not cases:
+                    return None
+                tf = os.path.join(s.dir, "nb.txt")
+                open(tf, "w").write("\n".join(cases) + "\n")
+                o2 = run_pipeline(["%s - < %s" % (h, tf)], drv)
+                st2, _, _, or2, _ = parse_driver_output(o2)
+                c.cov["search_cases"] = st2.get("cases", 0)
+                return shortest(or2) if or2 else None
+        except Exception as ex:
+            errors.append(str(ex))
+    else:
+        errors.append("build failed: " + "\n".join(c.notes)[-3000:])
+    c.cov["evaluations"] = int(stats.get("cases", 0))
+    c.cov["distinct_nontrivial"] = int(stats.get("distinct_nontrivial", 0))
+    c.cov["traces_validated_against_impl"] = max(0, int(stats.get("cases", 0)) - int(stats.get("disagree", 0)))
+    c.cov["rule"] = rule[c.tier] if isinstance(rule, dict) else rule
+    c.cov["exhaustive"] = False
+    c.cov["samples"] = samples[:6] or ["(no sample emitted)"]
+    c.cov["input_distribution"] = {k: v for k, v in stats.items()
+                                   if k not in ("cases", "distinct_nontrivial", "disagree", "oracle_fail")}
+    c.assumptions += list(assumptions)
+    if post:
+        post(c, s, stats)
+    standard_verdict(c, ok, stats, disagree, oracle, errors, correspondence_name, neighbourhood,
+                     replay_hint="./check %s --replay <file of stdin cases for %s>" % (prop, harness_src))
+    c.finish()
